@@ -2622,6 +2622,82 @@ func (e *Env) RAddsEveryMissing() {
 		})
 		return true
 	})
+	// … or two buckets that partition the keys (if / else, each branch appending the key to its
+	// bucket), joined afterwards: X := append(A, B...)
+	ast.Inspect(fd.Body, func(n ast.Node) bool {
+		rs, ok := n.(*ast.RangeStmt)
+		if !ok {
+			return true
+		}
+		if id, ok := rs.X.(*ast.Ident); !ok || id.Name != "importsRequired" {
+			return true
+		}
+		kid, ok := rs.Key.(*ast.Ident)
+		if !ok || len(rs.Body.List) != 1 {
+			return true
+		}
+		is, ok := rs.Body.List[0].(*ast.IfStmt)
+		if !ok || is.Else == nil {
+			return true
+		}
+		bucketOf := func(n ast.Node) types.Object {
+			var b types.Object
+			cnt := 0
+			ast.Inspect(n, func(m ast.Node) bool {
+				as, ok := m.(*ast.AssignStmt)
+				if !ok || len(as.Lhs) != 1 || len(as.Rhs) != 1 {
+					return true
+				}
+				call, ok := ast.Unparen(as.Rhs[0]).(*ast.CallExpr)
+				if !ok || len(call.Args) != 2 {
+					return true
+				}
+				fid, ok := call.Fun.(*ast.Ident)
+				lid, ok2 := as.Lhs[0].(*ast.Ident)
+				aid, ok3 := ast.Unparen(call.Args[1]).(*ast.Ident)
+				if ok && ok2 && ok3 && fid.Name == "append" && types.ExprString(call.Args[0]) == lid.Name && info.Uses[aid] == info.Defs[kid] {
+					b = info.Uses[lid]
+					cnt++
+				}
+				return true
+			})
+			if cnt != 1 {
+				return nil
+			}
+			return b
+		}
+		b1, b2 := bucketOf(is.Body), bucketOf(is.Else)
+		if b1 == nil || b2 == nil || b1 == b2 {
+			return true
+		}
+		ast.Inspect(fd.Body, func(m ast.Node) bool {
+			as, ok := m.(*ast.AssignStmt)
+			if !ok || len(as.Lhs) != 1 || len(as.Rhs) != 1 || as.Pos() < rs.End() {
+				return true
+			}
+			call, ok := ast.Unparen(as.Rhs[0]).(*ast.CallExpr)
+			if !ok || len(call.Args) != 2 || !call.Ellipsis.IsValid() {
+				return true
+			}
+			fid, ok := call.Fun.(*ast.Ident)
+			a0, ok0 := ast.Unparen(call.Args[0]).(*ast.Ident)
+			a1, ok1 := ast.Unparen(call.Args[1]).(*ast.Ident)
+			lid, okl := as.Lhs[0].(*ast.Ident)
+			if !ok || !ok0 || !ok1 || !okl || fid.Name != "append" {
+				return true
+			}
+			x, y := info.Uses[a0], info.Uses[a1]
+			if (x == b1 && y == b2) || (x == b2 && y == b1) {
+				if o := info.Defs[lid]; o != nil {
+					all = o
+				} else {
+					all = info.Uses[lid]
+				}
+			}
+			return true
+		})
+		return true
+	})
 	if all == nil {
 		e.Run.Undecided("R-ADD", key, e.Prog.Pos(fd.Pos()), "the list of all required imports (a slice filled with the keys of importsRequired) was not found")
 		return
